@@ -140,7 +140,18 @@ def standin(tier, seed):
         except Exception as e:  # noqa: BLE001
             V.add(f"{name}:add_move", {"driver": name}, repr(e)); continue
         ok = True
+        retired = None
         for st in range(steps):
+            if st == steps // 2:
+                # the user puts ANOTHER move object under the same name between two runs (the table keeps its size): from now on the
+                # new object gets the calls and the notifications, the retired one gets neither
+                retired = (log, len(log))
+                log = []
+                mv = BareMove(SometimesFails(ExchangeMove(np.arange(len(a))) if name == "GrandCanonical" else mkmove()), log)
+                try:
+                    sim.add_move(mv, BareCriteria(Coin(g), clog), name="user", probability=0.7)
+                except Exception as e:  # noqa: BLE001
+                    V.add(f"{name}:add_move", {"driver": name, "replacing": "user"}, repr(e)); break
             n0, c0 = len(a), a.cell.array.copy()
             l0, l20, k0 = len(log), len(log2), len(clog)
             try:
@@ -169,6 +180,8 @@ def standin(tier, seed):
                     V.add(f"{name}:cell_change_not_notified", {"driver": name, "step": st, "entry": who}, "accepted cell change without on_cell_changed(new cell)"); ok = False
                 if len(a) != n0 and sum(e[1] - e[2] for e in atom_notes) != len(a) - n0:
                     V.add(f"{name}:atom_count_change_not_notified", {"driver": name, "step": st, "entry": who}, f"{n0}->{len(a)} atoms, notifications {atom_notes}"); ok = False
+            if retired is not None and len(retired[0]) != retired[1]:
+                V.add(f"{name}:retired_move_still_used", {"driver": name, "step": st}, f"a move that was replaced under its name received {retired[0][retired[1]:][:3]}"); ok = False
             if not ok:
                 break
     return V.result(bound=f"{len(configs)} driver configurations x {steps} steps with bare (composition-only) moves and criteria, incl. shear cell moves and a second table entry with interval 3")
